@@ -58,10 +58,22 @@ Fixpoint trim_right (s : bytes) : bytes :=
               end
   end.
 
-(* the suffixed header SetContentType builds from a pre-set value without '+': the suffix
-   goes behind the media type, in front of the parameters *)
-Definition insert_suffix (sfx h : bytes) : bytes :=
-  if contains_semicolon h then trim_right (before_semi h) ++ sfx ++ from_semi h else h ++ sfx.
+(* mt[:strings.LastIndex(mt, "+")] when there is a '+', mt otherwise *)
+Fixpoint upto_last_plus (s : bytes) : option bytes :=
+  match s with
+  | [] => None
+  | c :: r => match upto_last_plus r with
+              | Some t => Some (c :: t)
+              | None => if N.eqb 43 c then Some [] else None
+              end
+  end.
+Definition strip_last_plus (s : bytes) : bytes :=
+  match upto_last_plus s with Some t => t | None => s end.
+
+(* the media type part of a pre-set header value as SetContentType takes it: everything in
+   front of the first ';' without trailing SP/TAB, the whole value when there is no ';' *)
+Definition media_part (h : bytes) : bytes :=
+  if contains_semicolon h then trim_right (before_semi h) else h.
 
 (* ---- literals ---- *)
 Definition app_json   : bytes := Eval vm_compute in bs "application/json".
@@ -116,8 +128,9 @@ Definition negotiate (a : bytes) : option (kind * bytes) :=
 Definition set_content_type (h ct : bytes) : bytes :=
   if beq h [] then ct
   else if negb (beq ct app_json) && negb (beq ct app_xml) then ct
-  else if contains_plus h then h
-  else insert_suffix (if beq ct app_xml then sfx_xml else sfx_json) h.
+  else let sfx := if beq ct app_xml then sfx_xml else sfx_json in
+       if has_suffix sfx (media_part h) then h                       (* agreeing suffix: untouched *)
+       else strip_last_plus (media_part h) ++ sfx ++ from_semi h.    (* other suffix replaced, parameters kept *)
 
 (* request side results *)
 Inductive rdec := RDec (k : kind) | RUnsupported (ct : bytes).
@@ -316,29 +329,31 @@ Definition parser_stable (pmt : bytes -> option bytes) : Prop :=
 (* the five supported literals are not rewritten by the parser *)
 Definition parser_fixes_supported (pmt : bytes -> option bytes) : Prop :=
   forall c, In c supported -> norm pmt c = c.
-(* the media type is decided by what stands in front of the first ';' and keeps a
-   +json / +xml suffix standing there *)
+(* the media type is decided by what stands in front of the first ';' (blanks before the ';'
+   do not count) and keeps a +json / +xml suffix standing there *)
 Definition parser_keeps_suffix (pmt : bytes -> option bytes) : Prop :=
-  forall b p m, contains_semicolon b = false -> (p = [] \/ exists r, p = 59 :: r) ->
-    (pmt (b ++ sfx_json ++ p) = Some m -> has_suffix sfx_json m = true) /\
-    (pmt (b ++ sfx_xml ++ p) = Some m -> has_suffix sfx_xml m = true).
+  forall b ws p m, contains_semicolon b = false -> forallb is_sp_tab ws = true ->
+    (p = [] \/ exists r, p = 59 :: r) ->
+    (pmt (b ++ sfx_json ++ ws ++ p) = Some m -> has_suffix sfx_json m = true) /\
+    (pmt (b ++ sfx_xml ++ ws ++ p) = Some m -> has_suffix sfx_xml m = true).
 (* a header field value made of visible ASCII, SP and TAB; for other bytes (CR, LF, U+00A0 ...)
    Go's parser trims more "white space" in front of the ';' than SetContentType does *)
 Definition field_safe (h : bytes) : bool :=
   forallb (fun c => (N.leb 32 c && N.ltb c 127) || N.eqb c 9) h.
-(* such a value with parameters that parses still parses once the suffix is inserted *)
+(* such a value with parameters that parses still parses once SetContentType has put the suffix in *)
 Definition parser_accepts_suffixed (pmt : bytes -> option bytes) : Prop :=
-  forall h m, field_safe h = true -> contains_plus h = false -> contains_semicolon h = true -> pmt h = Some m ->
-    pmt (insert_suffix sfx_json h) <> None /\ pmt (insert_suffix sfx_xml h) <> None.
+  forall h m, field_safe h = true -> contains_semicolon h = true -> pmt h = Some m ->
+    pmt (set_content_type h app_json) <> None /\ pmt (set_content_type h app_xml) <> None.
 
-(* the `_partial` hypothesis on a pre-set response header: nothing to say when the encoder
-   is gob/text (SetContentType overwrites); otherwise absent, or without '+' (and, when it
-   has parameters, a field-safe value the parser accepts), or already carrying a suffix that the
-   library decoder reads as the chosen kind *)
+(* the hypothesis on a pre-set response header: nothing to say when the encoder is gob/text
+   (SetContentType overwrites); otherwise absent, or without parameters (any '+' suffix is
+   fine: an agreeing one is kept, another one replaced), or with parameters and a field-safe
+   value the parser accepts. What stays outside: a pre-set value with a ';' that is not a
+   media type at all. *)
 Definition preset_ok (pmt : bytes -> option bytes) (k : kind) (preset : bytes) : Prop :=
   match k with
   | KGob | KText => True
   | _ => preset = []
-         \/ (contains_plus preset = false /\ (contains_semicolon preset = false \/ (field_safe preset = true /\ pmt preset <> None)))
-         \/ (contains_plus preset = true /\ response_decoder pmt preset = k)
+         \/ contains_semicolon preset = false
+         \/ (field_safe preset = true /\ pmt preset <> None)
   end.
